@@ -1,6 +1,7 @@
 """C02 - unification computes a most general unifier, or fails (claimed in part)."""
 from ..eng import EngineModel
 from .. import rules_bind as rb
+from .. import rules_extra as rx
 
 
 def check(repo, rep, tier):
@@ -15,3 +16,4 @@ def check(repo, rep, tier):
     rb.rule_bind_ownership(em, rep, 'C02.B1')
     rb.rule_manual_advance(em, rep, 'C02.H1')
     rb.rule_no_exhaust_then_yield(em, rep, 'C02.H1x')
+    rx.rule_no_cached_binding_state(em, rep, 'C02.B6')
